@@ -53,6 +53,18 @@ static void mark(const char* name) {
     { char tmp[64]; snprintf(tmp, sizeof tmp, "|%s", name); ev(tmp, 0, 0); }
     pthread_mutex_unlock(&g_mu);
 }
+/* call brackets for the tie: "[name:p1:p2" before an API call, "]ok" / "]NULL" / "]E<code>" / "]" after it */
+static void beg(const char* name, long a, long b) {
+    pthread_mutex_lock(&g_mu);
+    { char tmp[96]; if (a < 0) snprintf(tmp, sizeof tmp, "[%s", name); else if (b < 0) snprintf(tmp, sizeof tmp, "[%s:%ld", name, a); else snprintf(tmp, sizeof tmp, "[%s:%ld:%ld", name, a, b);
+      { size_t i; for (i = 0; tmp[i]; i++) if (tmp[i] == '%') tmp[i] = '_'; } ev(tmp, 0, 0); }
+    pthread_mutex_unlock(&g_mu);
+}
+static void endc(const char* res) {
+    pthread_mutex_lock(&g_mu);
+    { char tmp[64]; snprintf(tmp, sizeof tmp, "]%s", res); ev(tmp, 0, 0); }
+    pthread_mutex_unlock(&g_mu);
+}
 
 
 /* one allocation request of the library: plain = it came through libc malloc/calloc (default allocator) */
@@ -215,6 +227,7 @@ static const char* ename(size_t r) {
 /* judge one attempt of an operation: failed = it returned NULL/error; nf0 = g_nfailed before it */
 static void judge(const char* name, int failed, size_t code, int nf0, int attempt) {
     int const newfail = g_nfailed - nf0;
+    endc(failed ? (code ? ename(code) : "NULL") : "ok");
     if (failed) {
         oplog(name, code ? ename(code) : "NULL");
         if (newfail == 0) violation(attempt ? "error-after-reset-without-alloc-failure" : "error-without-alloc-failure", name);
@@ -244,10 +257,10 @@ static int check_rt(const char* name, const void* cbuf, size_t csize, const void
 static int op_compress2(const char* name, ZSTD_CCtx* c, const void* src, size_t n, const void* dict, size_t dictSize) {
     int t;
     for (t = 0; t < MAXTRY; t++) {
-        int nf0 = g_nfailed; size_t r = ZSTD_compress2(c, g_scratch, g_scratchCap, src, n);
+        int nf0 = g_nfailed; size_t r; beg("compress", -1, -1); r = ZSTD_compress2(c, g_scratch, g_scratchCap, src, n);
         judge(name, ZSTD_isError(r), ZSTD_isError(r) ? r : 0, nf0, t);
         if (!ZSTD_isError(r)) { check_rt(name, g_scratch, r, src, n, dict, dictSize); return 0; }
-        {   size_t rr = ZSTD_CCtx_reset(c, ZSTD_reset_session_only); if (ZSTD_isError(rr)) violation("reset-failed", name); }
+        {   size_t rr; beg("CCtx_reset", -1, -1); rr = ZSTD_CCtx_reset(c, ZSTD_reset_session_only); endc(ZSTD_isError(rr) ? "E" : "ok"); if (ZSTD_isError(rr)) violation("reset-failed", name); }
     }
     violation("not-reusable-after-reset", name); return 1;
 }
@@ -256,6 +269,7 @@ static int op_cstream(const char* name, ZSTD_CCtx* c, const void* src, size_t n,
     int t;
     for (t = 0; t < MAXTRY; t++) {
         int nf0 = g_nfailed; size_t r = 0; size_t ip = 0, op = 0; int calls = 0;
+        beg("compress", -1, -1);
         while (ip < n) {
             size_t const ci = (n - ip < chunk) ? n - ip : chunk;
             ZSTD_inBuffer in = { (const char*)src + ip, ci, 0 };
@@ -274,7 +288,7 @@ static int op_cstream(const char* name, ZSTD_CCtx* c, const void* src, size_t n,
 done:
         judge(name, ZSTD_isError(r), ZSTD_isError(r) ? r : 0, nf0, t);
         if (!ZSTD_isError(r)) { check_rt(name, g_scratch, op, src, n, NULL, 0); return 0; }
-        {   size_t rr = ZSTD_CCtx_reset(c, ZSTD_reset_session_only); if (ZSTD_isError(rr)) violation("reset-failed", name); }
+        {   size_t rr; beg("CCtx_reset", -1, -1); rr = ZSTD_CCtx_reset(c, ZSTD_reset_session_only); endc(ZSTD_isError(rr) ? "E" : "ok"); if (ZSTD_isError(rr)) violation("reset-failed", name); }
     }
     violation("not-reusable-after-reset", name); return 1;
 }
@@ -284,6 +298,7 @@ static int op_dstream(const char* name, ZSTD_DCtx* d, const void* frame, size_t 
     if (cap < en + 64) { cap = en + 64; if (out) __real_free(out); out = (char*)__real_malloc(cap); }
     for (t = 0; t < MAXTRY; t++) {
         int nf0 = g_nfailed; size_t r = 1; size_t ip = 0, op = 0;
+        beg("dstream", -1, -1);
         while (ip < fn) {
             size_t const ci = (fn - ip < chunk) ? fn - ip : chunk;
             ZSTD_inBuffer in = { (const char*)frame + ip, ci, 0 };
@@ -306,40 +321,45 @@ done:
             if (r != 0 || op != en || memcmp(out, expect, en)) violation("decoded-output-mismatch", name);
             return 0;
         }
-        {   size_t rr = ZSTD_DCtx_reset(d, ZSTD_reset_session_only); if (ZSTD_isError(rr)) violation("reset-failed", name); }
+        {   size_t rr; beg("DCtx_reset", -1, -1); rr = ZSTD_DCtx_reset(d, ZSTD_reset_session_only); endc(ZSTD_isError(rr) ? "E" : "ok"); if (ZSTD_isError(rr)) violation("reset-failed", name); }
     }
     violation("not-reusable-after-reset", name); return 1;
 }
 
 static ZSTD_CCtx* mk_cctx(void) {
-    int t; for (t = 0; t < MAXTRY; t++) { int nf0 = g_nfailed; ZSTD_CCtx* c = ZSTD_createCCtx_advanced(g_cmem); judge("createCCtx", c == NULL, 0, nf0, t); if (c) return c; }
+    int t; for (t = 0; t < MAXTRY; t++) { int nf0 = g_nfailed; ZSTD_CCtx* c; beg("createCCtx", -1, -1); c = ZSTD_createCCtx_advanced(g_cmem); judge("createCCtx", c == NULL, 0, nf0, t); if (c) return c; }
     violation("create-keeps-failing", "createCCtx"); return NULL;
 }
 static ZSTD_DCtx* mk_dctx(void) {
-    int t; for (t = 0; t < MAXTRY; t++) { int nf0 = g_nfailed; ZSTD_DCtx* d = ZSTD_createDCtx_advanced(g_cmem); judge("createDCtx", d == NULL, 0, nf0, t); if (d) return d; }
+    int t; for (t = 0; t < MAXTRY; t++) { int nf0 = g_nfailed; ZSTD_DCtx* d; beg("createDCtx", -1, -1); d = ZSTD_createDCtx_advanced(g_cmem); judge("createDCtx", d == NULL, 0, nf0, t); if (d) return d; }
     violation("create-keeps-failing", "createDCtx"); return NULL;
 }
 static void setp(ZSTD_CCtx* c, ZSTD_cParameter p, int v) {
-    int nf0 = g_nfailed; size_t r = ZSTD_CCtx_setParameter(c, p, v);
-    if (ZSTD_isError(r)) { judge("setParameter", 1, r, nf0, 0); }
+    int nf0 = g_nfailed; size_t r; beg("setParameter", (long)p, (long)v); r = ZSTD_CCtx_setParameter(c, p, v);
+    if (ZSTD_isError(r)) { judge("setParameter", 1, r, nf0, 0); } else endc("ok");
 }
 
 /* ------------------------------------------------------------------ scenarios */
 typedef void (*scen_fn)(int variant);
 typedef struct { const char* name; scen_fn fn; int variant; int heavy; } scen_t;
 
-static void sc_cctx_create(int v) { ZSTD_CCtx* c; (void)v; mark("create"); c = mk_cctx(); mark("free"); ZSTD_freeCCtx(c); }
+static void fr_cctx(ZSTD_CCtx* c) { beg("freeCCtx", -1, -1); ZSTD_freeCCtx(c); endc(""); }
+static void fr_dctx(ZSTD_DCtx* d) { beg("freeDCtx", -1, -1); ZSTD_freeDCtx(d); endc(""); }
+static void fr_cdict(ZSTD_CDict* d) { beg("freeCDict", 0, -1); ZSTD_freeCDict(d); endc(""); }
+static void fr_ddict(ZSTD_DDict* d, int k) { beg("freeDDict", k, -1); ZSTD_freeDDict(d); endc(""); }
+
+static void sc_cctx_create(int v) { ZSTD_CCtx* c; (void)v; mark("create"); c = mk_cctx(); mark("free"); fr_cctx(c); }
 
 static void sc_cctx_params(int v) {
     ZSTD_CCtx* c; ZSTD_CCtx_params* p = NULL; int t; (void)v;
     mark("create"); c = mk_cctx(); if (!c) return;
     mark("params");
-    for (t = 0; t < MAXTRY && !p; t++) { int nf0 = g_nfailed; p = ZSTD_createCCtxParams(); judge("createCCtxParams", p == NULL, 0, nf0, t); }
-    /* ZSTD_createCCtxParams uses the default allocator: not counted; kept for the call sequence */
+    for (t = 0; t < MAXTRY && !p; t++) { int nf0 = g_nfailed; beg("createCCtxParams", -1, -1); p = ZSTD_createCCtxParams(); judge("createCCtxParams", p == NULL, 0, nf0, t); }
+    /* ZSTD_createCCtxParams uses the default allocator (plain calloc: lower-case events) */
     if (p) { ZSTD_CCtxParams_setParameter(p, ZSTD_c_compressionLevel, 5); ZSTD_CCtxParams_setParameter(p, ZSTD_c_checksumFlag, 1);
              ZSTD_CCtx_setParametersUsingCCtxParams(c, p); }
     mark("compress"); op_compress2("compress2", c, g_src, 20000, NULL, 0);
-    mark("free"); ZSTD_freeCCtxParams(p); ZSTD_freeCCtx(c);
+    mark("free"); beg("freeCCtxParams", -1, -1); ZSTD_freeCCtxParams(p); endc(""); fr_cctx(c);
 }
 
 static void sc_compress_st(int v) {
@@ -348,7 +368,7 @@ static void sc_compress_st(int v) {
     setp(c, ZSTD_c_compressionLevel, lv[v % 5]);
     if (v >= 5) setp(c, ZSTD_c_enableLongDistanceMatching, 1);
     mark("compress"); op_compress2("compress2", c, g_src, v == 4 ? 30000 : 100000, NULL, 0);
-    mark("free"); ZSTD_freeCCtx(c);
+    mark("free"); fr_cctx(c);
 }
 
 /* workspace free + create: small job, then a much larger one (too small), then a tiny one many times (wasteful) */
@@ -360,39 +380,45 @@ static void sc_compress_grow(int v) {
     mark("big"); op_compress2("compress2-big", c, g_src, 600000, NULL, 0);
     mark("shrink");
     for (i = 0; i < 132; i++) op_compress2("compress2-tiny", c, g_src + i, 1000, NULL, 0);   /* oversized for > 128 uses -> realloc smaller */
-    mark("free"); ZSTD_freeCCtx(c);
+    mark("free"); fr_cctx(c);
 }
 
+static size_t do_load_dict(ZSTD_CCtx* c, int byRef, const char* dict) {
+    size_t r; beg("loadDictionary", byRef, -1);
+    r = byRef ? ZSTD_CCtx_loadDictionary_byReference(c, dict, g_dictSize) : ZSTD_CCtx_loadDictionary(c, dict, g_dictSize);
+    return r;
+}
 static void sc_load_dict(int v) {
     ZSTD_CCtx* c; int t;
     mark("create"); c = mk_cctx(); if (!c) return;
     setp(c, ZSTD_c_compressionLevel, 3);
     mark("loadDict");
     for (t = 0; t < MAXTRY; t++) { int nf0 = g_nfailed;
-        size_t r = (v == 1) ? ZSTD_CCtx_loadDictionary_byReference(c, g_dict, g_dictSize) : ZSTD_CCtx_loadDictionary(c, g_dict, g_dictSize);
+        size_t r = do_load_dict(c, v == 1, g_dict);
         judge("loadDictionary", ZSTD_isError(r), ZSTD_isError(r) ? r : 0, nf0, t); if (!ZSTD_isError(r)) break; }
     mark("compress"); op_compress2("compress2-dict", c, g_src + 100000, 5000, g_dict, g_dictSize);
     mark("compress-again"); op_compress2("compress2-dict2", c, g_src + 130000, 7000, g_dict, g_dictSize);
-    if (v == 2) { mark("reload"); { int nf0 = g_nfailed; size_t r = ZSTD_CCtx_loadDictionary(c, g_dicts[3], g_dictSize); judge("loadDictionary2", ZSTD_isError(r), ZSTD_isError(r) ? r : 0, nf0, 0);
+    if (v == 2) { mark("reload"); { int nf0 = g_nfailed; size_t r = do_load_dict(c, 0, g_dicts[3]); judge("loadDictionary2", ZSTD_isError(r), ZSTD_isError(r) ? r : 0, nf0, 0);
                                     if (!ZSTD_isError(r)) op_compress2("compress2-dict3", c, g_src + 130000, 7000, g_dicts[3], g_dictSize); } }
-    mark("free"); ZSTD_freeCCtx(c);
+    mark("free"); fr_cctx(c);
 }
 
 static ZSTD_CDict* mk_cdict(int byRef, int level) {
     int t; ZSTD_compressionParameters cp = ZSTD_getCParams(level, 0, g_dictSize);
-    for (t = 0; t < MAXTRY; t++) { int nf0 = g_nfailed;
-        ZSTD_CDict* cd = ZSTD_createCDict_advanced(g_dict, g_dictSize, byRef ? ZSTD_dlm_byRef : ZSTD_dlm_byCopy, ZSTD_dct_auto, cp, g_cmem);
+    for (t = 0; t < MAXTRY; t++) { int nf0 = g_nfailed; ZSTD_CDict* cd;
+        beg("createCDict", 0, byRef);
+        cd = ZSTD_createCDict_advanced(g_dict, g_dictSize, byRef ? ZSTD_dlm_byRef : ZSTD_dlm_byCopy, ZSTD_dct_auto, cp, g_cmem);
         judge("createCDict", cd == NULL, 0, nf0, t); if (cd) return cd; }
     violation("create-keeps-failing", "createCDict"); return NULL;
 }
 static void sc_cdict(int v) {
     ZSTD_CCtx* c; ZSTD_CDict* cd;
     mark("createCDict"); cd = mk_cdict(v & 1, (v & 2) ? 12 : 3); if (!cd) return;
-    mark("create"); c = mk_cctx(); if (!c) { ZSTD_freeCDict(cd); return; }
-    mark("ref"); { size_t r = ZSTD_CCtx_refCDict(c, cd); if (ZSTD_isError(r)) violation("refCDict-error", "refCDict"); }
+    mark("create"); c = mk_cctx(); if (!c) { fr_cdict(cd); return; }
+    mark("ref"); { size_t r; beg("refCDict", -1, -1); r = ZSTD_CCtx_refCDict(c, cd); endc(ZSTD_isError(r) ? "E" : "ok"); if (ZSTD_isError(r)) violation("refCDict-error", "refCDict"); }
     mark("compress"); op_compress2("compress2-cdict", c, g_src + 100000, 6000, g_dict, g_dictSize);
     mark("compress-big"); op_compress2("compress2-cdict-big", c, g_src + 100000, 300000, g_dict, g_dictSize);
-    mark("free"); ZSTD_freeCCtx(c); ZSTD_freeCDict(cd);
+    mark("free"); fr_cctx(c); fr_cdict(cd);
 }
 
 static void sc_cstream(int v) {
@@ -401,62 +427,67 @@ static void sc_cstream(int v) {
     setp(c, ZSTD_c_compressionLevel, v == 1 ? 9 : 2); setp(c, ZSTD_c_checksumFlag, 1);
     mark("stream"); op_cstream("cstream", c, g_src, 250000, 7001, 3001, v == 2 ? 5 : 0);
     mark("stream2"); op_cstream("cstream2", c, g_src + 1000, 40000, 997, 100000, 0);
-    mark("free"); ZSTD_freeCCtx(c);
+    mark("free"); fr_cctx(c);
 }
 
 static void sc_mt(int v) {
-    /* v: 0 one-shot 2 workers; 1 streaming 1 worker; 2 ldm + 2 workers; 3 dictionary + 2 workers; 4 rsyncable 3 workers; 5 resize 1 -> 3 workers */
+    /* v: 0 one-shot 2 workers; 1 streaming 1 worker; 2 ldm + 2 workers; 3 dictionary + 2 workers; 4 rsyncable 3 workers; 5 resize 1 -> 3 workers;
+       6 failed resize then back to 1 worker; 7 resize 3 -> 1 -> 4 workers, streaming */
     ZSTD_CCtx* c; size_t const n = (v == 2) ? 2600000 : 1400000;
     mark("create"); c = mk_cctx(); if (!c) return;
     setp(c, ZSTD_c_compressionLevel, 1);
-    setp(c, ZSTD_c_nbWorkers, (v == 1 || v == 5 || v == 6) ? 1 : (v == 4 ? 3 : 2));
+    setp(c, ZSTD_c_nbWorkers, (v == 1 || v == 5 || v == 6) ? 1 : ((v == 4 || v == 7) ? 3 : 2));
     setp(c, ZSTD_c_jobSize, 1 << 19);
     if (v == 2) { setp(c, ZSTD_c_enableLongDistanceMatching, 1); setp(c, ZSTD_c_windowLog, 21); }
     if (v == 4) setp(c, ZSTD_c_rsyncable, 1);
-    if (v == 3) { int nf0 = g_nfailed; size_t r = ZSTD_CCtx_loadDictionary(c, g_dict, g_dictSize); judge("loadDictionary", ZSTD_isError(r), ZSTD_isError(r) ? r : 0, nf0, 0);
-                  if (ZSTD_isError(r)) { nf0 = g_nfailed; r = ZSTD_CCtx_loadDictionary(c, g_dict, g_dictSize); judge("loadDictionary", ZSTD_isError(r), ZSTD_isError(r) ? r : 0, nf0, 1); } }
+    if (v == 3) { int nf0 = g_nfailed; size_t r = do_load_dict(c, 0, g_dict); judge("loadDictionary", ZSTD_isError(r), ZSTD_isError(r) ? r : 0, nf0, 0);
+                  if (ZSTD_isError(r)) { nf0 = g_nfailed; r = do_load_dict(c, 0, g_dict); judge("loadDictionary", ZSTD_isError(r), ZSTD_isError(r) ? r : 0, nf0, 1); } }
     mark("compress");
-    if (v == 1) op_cstream("mt-cstream", c, g_src, n, 200000, 150000, 3);
+    if (v == 1 || v == 7) op_cstream("mt-cstream", c, g_src, n, 200000, 150000, 3);
     else op_compress2("mt-compress2", c, g_src, n, v == 3 ? g_dict : NULL, v == 3 ? g_dictSize : 0);
     if (v == 5) { mark("resize"); setp(c, ZSTD_c_nbWorkers, 3); op_compress2("mt-compress2-resized", c, g_src + 3, n, NULL, 0); }
     if (v == 6) {   /* a failed resize followed by a return to the previous worker count */
         int nf0; size_t r;
         mark("resize"); setp(c, ZSTD_c_nbWorkers, 3); nf0 = g_nfailed;
+        beg("compress", -1, -1);
         r = ZSTD_compress2(c, g_scratch, g_scratchCap, g_src + 3, n); judge("mt-compress2-resized", ZSTD_isError(r), ZSTD_isError(r) ? r : 0, nf0, 0);
-        if (ZSTD_isError(r)) { ZSTD_CCtx_reset(c, ZSTD_reset_session_only); mark("back"); setp(c, ZSTD_c_nbWorkers, 1); op_compress2("mt-compress2-back", c, g_src + 5, n, NULL, 0); }
+        if (ZSTD_isError(r)) { beg("CCtx_reset", -1, -1); ZSTD_CCtx_reset(c, ZSTD_reset_session_only); endc("ok"); mark("back"); setp(c, ZSTD_c_nbWorkers, 1); op_compress2("mt-compress2-back", c, g_src + 5, n, NULL, 0); }
     }
+    if (v == 7) { mark("shrink"); setp(c, ZSTD_c_nbWorkers, 1); op_cstream("mt-cstream-1", c, g_src + 11, 900000, 100000, 50000, 0);
+                  mark("grow"); setp(c, ZSTD_c_nbWorkers, 4); op_cstream("mt-cstream-4", c, g_src + 13, n, 300000, 200000, 2); }
     mark("again"); op_compress2("mt-compress2-again", c, g_src + 7, 700000, v == 3 ? g_dict : NULL, v == 3 ? g_dictSize : 0);
-    mark("free"); ZSTD_freeCCtx(c);
+    mark("free"); fr_cctx(c);
 }
 
 /* unit level: the constructors the DSL instances model, called directly */
 static void sc_pool(int v) {
     POOL_ctx* p = NULL; int t; size_t const nt = (v & 1) ? 3 : 1; size_t const qs = (v & 2) ? 4 : 0;
     mark("POOL_create");
-    for (t = 0; t < MAXTRY && !p; t++) { int nf0 = g_nfailed; p = POOL_create_advanced(nt, qs, g_cmem); judge("POOL_create", p == NULL, 0, nf0, t); }
+    for (t = 0; t < MAXTRY && !p; t++) { int nf0 = g_nfailed; beg("POOL_create", (long)nt, (long)qs); p = POOL_create_advanced(nt, qs, g_cmem); judge("POOL_create", p == NULL, 0, nf0, t); }
     if (!p) { violation("create-keeps-failing", "POOL_create"); return; }
     mark("POOL_resize");
-    for (t = 0; t < MAXTRY; t++) { int nf0 = g_nfailed; int r = POOL_resize(p, nt + 2); judge("POOL_resize", r != 0, 0, nf0, t); if (!r) break; }
+    for (t = 0; t < MAXTRY; t++) { int nf0 = g_nfailed; int r; beg("POOL_resize", (long)nt + 2, -1); r = POOL_resize(p, nt + 2); judge("POOL_resize", r != 0, 0, nf0, t); if (!r) break; }
     mark("POOL_resize_down");
-    { int nf0 = g_nfailed; int r = POOL_resize(p, 1); judge("POOL_resize_down", r != 0, 0, nf0, 0); }
-    mark("POOL_free"); POOL_free(p);
+    { int nf0 = g_nfailed; int r; beg("POOL_resize", 1, -1); r = POOL_resize(p, 1); judge("POOL_resize_down", r != 0, 0, nf0, 0); }
+    if (v & 4) { mark("POOL_resize_up"); for (t = 0; t < MAXTRY; t++) { int nf0 = g_nfailed; int r; beg("POOL_resize", (long)nt + 5, -1); r = POOL_resize(p, nt + 5); judge("POOL_resize_up", r != 0, 0, nf0, t); if (!r) break; } }
+    mark("POOL_free"); beg("POOL_free", -1, -1); POOL_free(p); endc("");
 }
 
 static void sc_mtctx(int v) {
     ZSTDMT_CCtx* m = NULL; int t; unsigned const w = (unsigned)(v + 1);
     mark("ZSTDMT_create");
-    for (t = 0; t < MAXTRY && !m; t++) { int nf0 = g_nfailed; m = ZSTDMT_createCCtx_advanced(w, g_cmem, NULL); judge("ZSTDMT_create", m == NULL, 0, nf0, t); }
+    for (t = 0; t < MAXTRY && !m; t++) { int nf0 = g_nfailed; beg("ZSTDMT_create", (long)w, -1); m = ZSTDMT_createCCtx_advanced(w, g_cmem, NULL); judge("ZSTDMT_create", m == NULL, 0, nf0, t); }
     if (!m) { violation("create-keeps-failing", "ZSTDMT_create"); return; }
-    mark("ZSTDMT_free"); ZSTDMT_freeCCtx(m);
+    mark("ZSTDMT_free"); beg("ZSTDMT_free", -1, -1); ZSTDMT_freeCCtx(m); endc("");
 }
 
 static void sc_dctx(int v) {
     ZSTD_DCtx* d; static char out[400000]; (void)v;
     mark("create"); d = mk_dctx(); if (!d) return;
     mark("decompress");
-    { int nf0 = g_nfailed; size_t r = ZSTD_decompressDCtx(d, out, sizeof out, g_fr_big, g_fr_big_n); judge("decompressDCtx", ZSTD_isError(r), ZSTD_isError(r) ? r : 0, nf0, 0);
+    { int nf0 = g_nfailed; size_t r; beg("decompressDCtx", -1, -1); r = ZSTD_decompressDCtx(d, out, sizeof out, g_fr_big, g_fr_big_n); judge("decompressDCtx", ZSTD_isError(r), ZSTD_isError(r) ? r : 0, nf0, 0);
       if (!ZSTD_isError(r) && (r != 300000 || memcmp(out, g_src + 5000, r))) violation("decoded-output-mismatch", "decompressDCtx"); }
-    mark("free"); ZSTD_freeDCtx(d);
+    mark("free"); fr_dctx(d);
 }
 
 static void sc_dstream(int v) {
@@ -467,38 +498,40 @@ static void sc_dstream(int v) {
     mark("big"); op_dstream("dstream-big", d, g_fr_big, g_fr_big_n, g_src + 5000, 300000, v ? 1000 : 50000, v ? 5000 : 400000);
     mark("small-again"); op_dstream("dstream-small2", d, g_fr_small, g_fr_small_n, g_src, 3000, 4096, 100000);
     if (v == 2) { int i; mark("shrink"); for (i = 0; i < 132; i++) op_dstream("dstream-tiny", d, g_fr_small, g_fr_small_n, g_src, 3000, 4096, 100000); }
-    mark("free"); ZSTD_freeDCtx(d);
+    mark("free"); fr_dctx(d);
 }
 
 static void sc_dctx_dict(int v) {
     ZSTD_DCtx* d; int t; static char out[8192];
     mark("create"); d = mk_dctx(); if (!d) return;
     mark("loadDict");
-    for (t = 0; t < MAXTRY; t++) { int nf0 = g_nfailed;
-        size_t r = v ? ZSTD_DCtx_loadDictionary_byReference(d, g_dicts[7], g_dictSize) : ZSTD_DCtx_loadDictionary(d, g_dicts[7], g_dictSize);
+    for (t = 0; t < MAXTRY; t++) { int nf0 = g_nfailed; size_t r;
+        beg("DCtx_loadDictionary", v ? 1 : 0, -1);
+        r = v ? ZSTD_DCtx_loadDictionary_byReference(d, g_dicts[7], g_dictSize) : ZSTD_DCtx_loadDictionary(d, g_dicts[7], g_dictSize);
         judge("DCtx_loadDictionary", ZSTD_isError(r), ZSTD_isError(r) ? r : 0, nf0, t); if (!ZSTD_isError(r)) break; }
     mark("decompress");
-    { int nf0 = g_nfailed; size_t r = ZSTD_decompressDCtx(d, out, sizeof out, g_fr_dict, g_fr_dict_n); judge("decompressDCtx-dict", ZSTD_isError(r), ZSTD_isError(r) ? r : 0, nf0, 0);
+    { int nf0 = g_nfailed; size_t r; beg("decompressDCtx", -1, -1); r = ZSTD_decompressDCtx(d, out, sizeof out, g_fr_dict, g_fr_dict_n); judge("decompressDCtx-dict", ZSTD_isError(r), ZSTD_isError(r) ? r : 0, nf0, 0);
       if (!ZSTD_isError(r) && (r != 4000 || memcmp(out, g_src + 100000 + 7 * 600, r))) violation("decoded-output-mismatch", "decompressDCtx-dict"); }
     mark("stream"); op_dstream("dstream-dict", d, g_fr_dict, g_fr_dict_n, g_src + 100000 + 7 * 600, 4000, 500, 600);
-    mark("free"); ZSTD_freeDCtx(d);
+    mark("free"); fr_dctx(d);
 }
 
-static ZSTD_DDict* mk_ddict(const char* dict, int byRef) {
+static ZSTD_DDict* mk_ddict(const char* dict, int byRef, int k) {
     int t;
-    for (t = 0; t < MAXTRY; t++) { int nf0 = g_nfailed;
-        ZSTD_DDict* dd = ZSTD_createDDict_advanced(dict, g_dictSize, byRef ? ZSTD_dlm_byRef : ZSTD_dlm_byCopy, ZSTD_dct_auto, g_cmem);
+    for (t = 0; t < MAXTRY; t++) { int nf0 = g_nfailed; ZSTD_DDict* dd;
+        beg("createDDict", k, byRef);
+        dd = ZSTD_createDDict_advanced(dict, g_dictSize, byRef ? ZSTD_dlm_byRef : ZSTD_dlm_byCopy, ZSTD_dct_auto, g_cmem);
         judge("createDDict", dd == NULL, 0, nf0, t); if (dd) return dd; }
     violation("create-keeps-failing", "createDDict"); return NULL;
 }
 static void sc_ddict(int v) {
     ZSTD_DCtx* d; ZSTD_DDict* dd; static char out[8192];
-    mark("createDDict"); dd = mk_ddict(g_dicts[7], v); if (!dd) return;
-    mark("create"); d = mk_dctx(); if (!d) { ZSTD_freeDDict(dd); return; }
+    mark("createDDict"); dd = mk_ddict(g_dicts[7], v, 0); if (!dd) return;
+    mark("create"); d = mk_dctx(); if (!d) { fr_ddict(dd, 0); return; }
     mark("decompress");
-    { int nf0 = g_nfailed; size_t r = ZSTD_decompress_usingDDict(d, out, sizeof out, g_fr_dict, g_fr_dict_n, dd); judge("decompress_usingDDict", ZSTD_isError(r), ZSTD_isError(r) ? r : 0, nf0, 0);
+    { int nf0 = g_nfailed; size_t r; beg("decompress_usingDDict", -1, -1); r = ZSTD_decompress_usingDDict(d, out, sizeof out, g_fr_dict, g_fr_dict_n, dd); judge("decompress_usingDDict", ZSTD_isError(r), ZSTD_isError(r) ? r : 0, nf0, 0);
       if (!ZSTD_isError(r) && (r != 4000 || memcmp(out, g_src + 100000 + 7 * 600, r))) violation("decoded-output-mismatch", "decompress_usingDDict"); }
-    mark("free"); ZSTD_freeDCtx(d); ZSTD_freeDDict(dd);
+    mark("free"); fr_dctx(d); fr_ddict(dd, 0);
 }
 
 static void sc_multi_ddict(int v) {
@@ -508,31 +541,77 @@ static void sc_multi_ddict(int v) {
     mark("create"); d = mk_dctx(); if (!d) return;
     { size_t r = ZSTD_DCtx_setParameter(d, ZSTD_d_refMultipleDDicts, ZSTD_rmd_refMultipleDDicts); if (ZSTD_isError(r)) violation("setParameter-error", "refMultipleDDicts"); }
     mark("ddicts");
-    for (i = 0; i < nd; i++) { dds[i] = mk_ddict(g_dicts[i], i & 1); if (!dds[i]) goto out; }
+    for (i = 0; i < nd; i++) { dds[i] = mk_ddict(g_dicts[i], i & 1, i); if (!dds[i]) goto out; }
     mark("ref");
     for (i = 0; i < nd; i++) { int t;
-        for (t = 0; t < MAXTRY; t++) { int nf0 = g_nfailed; size_t r = ZSTD_DCtx_refDDict(d, dds[i]);
+        for (t = 0; t < MAXTRY; t++) { int nf0 = g_nfailed; size_t r; beg("refDDict", i, -1); r = ZSTD_DCtx_refDDict(d, dds[i]);
             judge("refDDict", ZSTD_isError(r), ZSTD_isError(r) ? r : 0, nf0, t); if (!ZSTD_isError(r)) break; }
         if (t == MAXTRY) violation("not-reusable-after-reset", "refDDict"); }
     mark("decompress");
-    { int nf0 = g_nfailed; size_t r = ZSTD_decompressDCtx(d, out, sizeof out, g_fr_dict, g_fr_dict_n); judge("decompressDCtx-multi", ZSTD_isError(r), ZSTD_isError(r) ? r : 0, nf0, 0);
+    { int nf0 = g_nfailed; size_t r; beg("decompressDCtx", -1, -1); r = ZSTD_decompressDCtx(d, out, sizeof out, g_fr_dict, g_fr_dict_n); judge("decompressDCtx-multi", ZSTD_isError(r), ZSTD_isError(r) ? r : 0, nf0, 0);
       if (!ZSTD_isError(r) && (r != 4000 || memcmp(out, g_src + 100000 + 7 * 600, r))) violation("decoded-output-mismatch", "decompressDCtx-multi"); }
     mark("stream"); op_dstream("dstream-multi", d, g_fr_dict, g_fr_dict_n, g_src + 100000 + 7 * 600, 4000, 300, 900);
 out:
-    mark("free"); ZSTD_freeDCtx(d); for (i = 0; i < nd; i++) ZSTD_freeDDict(dds[i]);
+    mark("free"); fr_dctx(d); for (i = 0; i < nd; i++) if (dds[i]) fr_ddict(dds[i], i);
 }
 
 static void sc_copy_cctx(int v) {
     ZSTD_CCtx *a, *b; (void)v;
-    mark("create"); a = mk_cctx(); if (!a) return; b = mk_cctx(); if (!b) { ZSTD_freeCCtx(a); return; }
+    mark("create"); a = mk_cctx(); if (!a) return; b = mk_cctx(); if (!b) { fr_cctx(a); return; }
     mark("begin");
-    { int t; for (t = 0; t < MAXTRY; t++) { int nf0 = g_nfailed; size_t r = ZSTD_compressBegin(a, 4); judge("compressBegin", ZSTD_isError(r), ZSTD_isError(r) ? r : 0, nf0, t); if (!ZSTD_isError(r)) break; } }
+    { int t; for (t = 0; t < MAXTRY; t++) { int nf0 = g_nfailed; size_t r; beg("compressBegin", -1, -1); r = ZSTD_compressBegin(a, 4); judge("compressBegin", ZSTD_isError(r), ZSTD_isError(r) ? r : 0, nf0, t); if (!ZSTD_isError(r)) break; } }
     mark("copy");
-    { int t; for (t = 0; t < MAXTRY; t++) { int nf0 = g_nfailed; size_t r = ZSTD_copyCCtx(b, a, 50000); judge("copyCCtx", ZSTD_isError(r), ZSTD_isError(r) ? r : 0, nf0, t); if (!ZSTD_isError(r)) {
+    { int t; for (t = 0; t < MAXTRY; t++) { int nf0 = g_nfailed; size_t r; beg("copyCCtx", -1, -1); r = ZSTD_copyCCtx(b, a, 50000); judge("copyCCtx", ZSTD_isError(r), ZSTD_isError(r) ? r : 0, nf0, t); if (!ZSTD_isError(r)) {
           size_t c = ZSTD_compressEnd(b, g_scratch, g_scratchCap, g_src, 50000);
           if (ZSTD_isError(c)) violation("compressEnd-error", "copyCCtx"); else check_rt("copyCCtx", g_scratch, c, g_src, 50000, NULL, 0);
           break; } } }
-    mark("free"); ZSTD_freeCCtx(a); ZSTD_freeCCtx(b);
+    mark("free"); fr_cctx(a); fr_cctx(b);
+}
+
+/* ---- dictionary training: the trainers use plain malloc/calloc/free (lower-case events); no context to reset.
+   Oracle: error (any code) or a dictionary that ZSTD_createCDict/DDict-free decoding accepts; a retry with memory
+   available must succeed; nothing stays allocated. */
+#define NSAMP 320
+#define SSAMP 160
+static size_t g_ssz[NSAMP];
+static void check_dict(const char* name, const void* dict, size_t dsz) {
+    int saved = g_armed; g_armed = 0;
+    {   size_t const n = 3000;
+        {   ZSTD_CCtx* cc = ZSTD_createCCtx(); size_t r = ZSTD_compress_usingDict(cc, g_scratch, g_scratchCap, g_src + 200000, n, dict, dsz, 3);
+            ZSTD_freeCCtx(cc);
+            if (ZSTD_isError(r)) violation("trained-dictionary-unusable", name);
+            else check_rt(name, g_scratch, r, g_src + 200000, n, dict, dsz); } }
+    g_armed = saved;
+}
+static void sc_train(int v) {
+    /* v: 0 cover  1 fastcover  2 legacy  3 ZDICT_trainFromBuffer (fastcover optimise, 1 thread)  4 optimize cover 2 threads
+          5 optimize fastcover 2 threads  6 finalizeDictionary  7 addEntropyTablesFromBuffer */
+    static char dict[1 << 14]; size_t const cap = sizeof dict; int t, i; size_t r = 0;
+    const char* samples = g_src + 400000;
+    static const char* names[] = { "train_cover", "train_fastcover", "train_legacy", "trainFromBuffer", "optimize_cover", "optimize_fastcover", "finalizeDictionary", "addEntropyTables" };
+    for (i = 0; i < NSAMP; i++) g_ssz[i] = SSAMP;
+    mark("train");
+    for (t = 0; t < MAXTRY; t++) {
+        int nf0 = g_nfailed;
+        beg(names[v], -1, -1);
+        switch (v) {
+        case 0: { ZDICT_cover_params_t p; memset(&p, 0, sizeof p); p.k = 200; p.d = 8; p.zParams.compressionLevel = 3; r = ZDICT_trainFromBuffer_cover(dict, cap, samples, g_ssz, NSAMP, p); break; }
+        case 1: { ZDICT_fastCover_params_t p; memset(&p, 0, sizeof p); p.k = 200; p.d = 8; p.f = 14; p.accel = 1; p.zParams.compressionLevel = 3; r = ZDICT_trainFromBuffer_fastCover(dict, cap, samples, g_ssz, NSAMP, p); break; }
+        case 2: { ZDICT_legacy_params_t p; memset(&p, 0, sizeof p); p.selectivityLevel = 9; r = ZDICT_trainFromBuffer_legacy(dict, cap, samples, g_ssz, NSAMP, p); break; }
+        case 3: r = ZDICT_trainFromBuffer(dict, 4096, samples, g_ssz, 120); break;
+        case 4: { ZDICT_cover_params_t p; memset(&p, 0, sizeof p); p.d = 8; p.steps = 3; p.nbThreads = 2; p.zParams.compressionLevel = 3; r = ZDICT_optimizeTrainFromBuffer_cover(dict, 4096, samples, g_ssz, 120, &p); break; }
+        case 5: { ZDICT_fastCover_params_t p; memset(&p, 0, sizeof p); p.d = 8; p.steps = 3; p.f = 12; p.accel = 2; p.nbThreads = 2; p.zParams.compressionLevel = 3; r = ZDICT_optimizeTrainFromBuffer_fastCover(dict, 4096, samples, g_ssz, 120, &p); break; }
+        case 6: { ZDICT_params_t p; memset(&p, 0, sizeof p); p.compressionLevel = 3; r = ZDICT_finalizeDictionary(dict, cap, g_src + 600000, 6000, samples, g_ssz, NSAMP, p); break; }
+        default: { memcpy(dict + cap - 5000, g_src + 600000, 5000); r = ZDICT_addEntropyTablesFromBuffer(dict, 5000, cap, samples, g_ssz, NSAMP); break; }
+        }
+        {   int const failed = ZDICT_isError(r); int const newfail = g_nfailed - nf0;
+            endc(failed ? ename(r) : "ok");
+            if (failed) { oplog(names[v], ename(r)); if (newfail == 0) violation(t ? "error-after-retry-without-alloc-failure" : "error-without-alloc-failure", names[v]); }
+            else { oplog(names[v], t ? "ok-retry" : "ok"); if (newfail) { g_succ_despite_fail++; oplog(names[v], "note-success-despite-alloc-failure"); }
+                   if (r == 0 || r > cap) violation("trained-dictionary-size-out-of-range", names[v]); else check_dict(names[v], dict, r);
+                   return; } }
+    }
+    violation("training-keeps-failing", names[v]);
 }
 
 static const scen_t g_scen[] = {
@@ -545,15 +624,19 @@ static const scen_t g_scen[] = {
     { "cdict_copy", sc_cdict, 0, 0 }, { "cdict_ref", sc_cdict, 1, 0 }, { "cdict_copy_l12", sc_cdict, 2, 1 },
     { "cstream", sc_cstream, 0, 0 }, { "cstream_l9", sc_cstream, 1, 1 }, { "cstream_flush", sc_cstream, 2, 0 },
     { "mt_oneshot", sc_mt, 0, 0 }, { "mt_stream", sc_mt, 1, 0 }, { "mt_ldm", sc_mt, 2, 0 }, { "mt_dict", sc_mt, 3, 0 },
-    { "mt_rsync", sc_mt, 4, 1 }, { "mt_resize", sc_mt, 5, 0 }, { "mt_resize_back", sc_mt, 6, 0 },
+    { "mt_rsync", sc_mt, 4, 1 }, { "mt_resize", sc_mt, 5, 0 }, { "mt_resize_back", sc_mt, 6, 0 }, { "mt_resize_stream", sc_mt, 7, 1 },
     { "unit_pool_1_0", sc_pool, 0, 0 }, { "unit_pool_3_0", sc_pool, 1, 0 }, { "unit_pool_1_4", sc_pool, 2, 0 }, { "unit_pool_3_4", sc_pool, 3, 0 },
-    { "unit_mtctx_1", sc_mtctx, 0, 0 }, { "unit_mtctx_2", sc_mtctx, 1, 0 }, { "unit_mtctx_4", sc_mtctx, 3, 0 },
+    { "unit_pool_3_4_up", sc_pool, 7, 0 },
+    { "unit_mtctx_1", sc_mtctx, 0, 0 }, { "unit_mtctx_2", sc_mtctx, 1, 0 }, { "unit_mtctx_4", sc_mtctx, 3, 0 }, { "unit_mtctx_9", sc_mtctx, 8, 0 },
     { "dctx_oneshot", sc_dctx, 0, 0 },
     { "dstream_grow", sc_dstream, 0, 0 }, { "dstream_grow_small_io", sc_dstream, 1, 0 }, { "dstream_shrink", sc_dstream, 2, 0 },
     { "dctx_load_dict_copy", sc_dctx_dict, 0, 0 }, { "dctx_load_dict_ref", sc_dctx_dict, 1, 0 },
     { "ddict_copy", sc_ddict, 0, 0 }, { "ddict_ref", sc_ddict, 1, 0 },
     { "multi_ddict_20", sc_multi_ddict, 0, 0 }, { "multi_ddict_40", sc_multi_ddict, 1, 1 },
     { "copy_cctx", sc_copy_cctx, 0, 0 },
+    { "train_cover", sc_train, 0, 0 }, { "train_fastcover", sc_train, 1, 0 }, { "train_legacy", sc_train, 2, 0 }, { "train_default", sc_train, 3, 1 },
+    { "train_opt_cover_mt", sc_train, 4, 1 }, { "train_opt_fastcover_mt", sc_train, 5, 1 },
+    { "train_finalize", sc_train, 6, 0 }, { "train_add_entropy", sc_train, 7, 0 },
 };
 #define NSCEN ((int)(sizeof g_scen / sizeof *g_scen))
 
